@@ -65,6 +65,32 @@ class SegTable:
         return self.segs
 
 
+class LazySegTable:
+    """Same interface as SegTable but returns markers; `intern` resolves them against one shared table later
+    (lets worker processes project packages independently and the parent build one table per TLC run)."""
+
+    def name(self, s: str):
+        return {"$n": s}
+
+    def ref(self, s: str):
+        return {"$r": s}
+
+    def table(self):
+        return []
+
+
+def intern(obj, st: SegTable):
+    if isinstance(obj, dict):
+        if len(obj) == 1 and "$n" in obj:
+            return st.name(obj["$n"])
+        if len(obj) == 1 and "$r" in obj:
+            return st.ref(obj["$r"])
+        return {k: intern(v, st) for k, v in obj.items()}
+    if isinstance(obj, list):
+        return [intern(v, st) for v in obj]
+    return obj
+
+
 # ------------------------------------------------------------------ payload tokens
 def _slide(text: str, variant: int) -> bytes:
     if variant == 0:
@@ -259,7 +285,7 @@ def project_members(members: dict[str, bytes], st: SegTable, tok=token) -> dict:
             tgt = el.get("Target")
             items.append({"id": el.get("Id"), "type": el.get("Type"), "ext": ext,
                           "ref": {"abs": False, "segs": []} if ext else st.ref(tgt), "url": tgt if ext else ""})
-        ph["rels"].append({"src": st.name(src) if src != "/" else [], "items": items})
+        ph["rels"].append({"src": st.name(src), "items": items})
     return ph
 
 
